@@ -1,3 +1,245 @@
 import Srctools.Wire
-/-! stub driver (echo) — replaced when the property's model exists. -/
-def main : IO Unit := Wire.main fun j => pure j
+import Srctools.Model.C11
+import Srctools.Gen.Bspfmt
+/-! Driver for the C11 models (struct codec, RLE, index builders, lump encoders).
+requests (bytes are arrays of 0..255, text arrays of code points):
+  {"op":"rle_enc","d":[b…]}                              → {"r":[b…]}
+  {"op":"rle_dec","d":[b…],"start":n,"max":n|null}       → {"r":[b…]} | {"err":"truncated"}
+  {"op":"foi","mod":m,"init":[n…],"calls":[n…]}          → {"idx":[n…],"list":[n…]}      key = x % m (m=0: identity)
+  {"op":"foe","mod":m,"bounded":b|null,"init":[n…],"calls":[[n…]…]} → {"idx":[n…],"list":[n…]}   (null: as extracted from the source)
+  {"op":"pack","fmt":[cp…],"vals":[v…]}                  → {"r":[b…]} | {"err":e}       v = {"i":n}|{"f":bits}|{"d":bits}|{"b":bool}|{"s":[b…]}
+  {"op":"unpack","fmt":[cp…],"d":[b…]}                   → {"vals":[v…]} | {"err":e}
+  {"op":"recs","rec":name,"layout":name,"rows":[[v…]…]}  → {"r":[b…]} | {"err":e}        record formats from Gen (writer side)
+  {"op":"recs_read","rec":name,"layout":name,"d":[b…]}   → {"rows":[[v…]…]} | {"err":e}  (reader side)
+  {"op":"tex","names":[[b…]…]}                           → {"data":[b…],"table":[b…]} | {"err":e}
+  {"op":"tex_read","data":[b…],"offs":[n…]}              → {"names":[[b…]…]} | {"err":e}
+  {"op":"vis","pvs":[[b…]…],"pas":[[b…]…]}               → {"r":[b…]} | {"err":e}
+  {"op":"vis_read","d":[b…]}                             → {"pvs":[[b…]…],"pas":[[b…]…]} | {"err":e}
+  {"op":"name","fn":string,"name":[b…]}                  → {"r":[b…]} | {"err":e}        128s dictionary entry of that writer
+  {"op":"prop","version":[cp…],"vals":[v…]}              → {"r":[b…],"size":n} | {"err":e}  one static-prop record (writer segments)
+  {"op":"prop_read","version":[cp…],"d":[b…]}            → {"vals":[v…]} | {"err":e}       (reader segments)
+  {"op":"gen"}                                           → facts extracted from the source
+-/
+open Lean StructCodec C11
+
+def bytesOf (j : Json) : Except String Bytes := do
+  let l ← Wire.natList j
+  pure (l.map UInt8.ofNat)
+
+def ofBytes (b : Bytes) : Json := Wire.ofNatList (b.map UInt8.toNat)
+
+def valOf (j : Json) : Except String Val := do
+  match j.getObjVal? "i" with
+  | .ok x => pure (.int (← x.getInt?))
+  | .error _ =>
+  match j.getObjVal? "f" with
+  | .ok x => pure (.f32 (UInt32.ofNat (← x.getNat?)))
+  | .error _ =>
+  match j.getObjVal? "d" with
+  | .ok x => pure (.f64 (UInt64.ofNat (← x.getNat?)))
+  | .error _ =>
+  match j.getObjVal? "b" with
+  | .ok x => pure (.bool (← x.getBool?))
+  | .error _ =>
+  match j.getObjVal? "s" with
+  | .ok x => pure (.bytes (← bytesOf x))
+  | .error _ => throw "bad value"
+
+def ofVal : Val → Json
+  | .int v => Json.mkObj [("i", Json.num (JsonNumber.fromInt v))]
+  | .f32 b => Json.mkObj [("f", Json.num (JsonNumber.fromNat b.toNat))]
+  | .f64 b => Json.mkObj [("d", Json.num (JsonNumber.fromNat b.toNat))]
+  | .bool b => Json.mkObj [("b", Json.bool b)]
+  | .bytes b => Json.mkObj [("s", ofBytes b)]
+
+def valsOf (j : Json) : Except String (List Val) := do
+  let a ← j.getArr?
+  a.toList.mapM valOf
+
+def errJson (e : String) : Json := Json.mkObj [("err", Json.str e)]
+
+def structErr : StructCodec.Err → String
+  | .arity => "arity" | .type => "type" | .range => "range" | .size => "size"
+
+def lumpErr : LumpErr → String
+  | .tooLong => "tooLong" | .range => "range" | .badString => "badString" | .badData => "badData"
+  | .badEnum => "badEnum" | .mismatch => "mismatch" | .rle => "rle"
+
+def wireOf (s : List Char) : Option Fmt := (parseFmt s).bind Parsed.wire
+
+def wireCat : List (List Char) → Option Fmt
+  | [] => some []
+  | s :: ss => match wireOf s, wireCat ss with
+    | some a, some b => some (a ++ b)
+    | _, _ => none
+
+def findPair (rec layout : String) : Option Gen.Bspfmt.Pair :=
+  Gen.Bspfmt.pairs.find? (fun p => p.record == rec && (p.layout == layout || p.layout == "*"))
+
+def keyOf (m : Nat) (x : Nat) : Nat := if m = 0 then x else x % m
+
+def foiRun (m : Nat) (init calls : List Nat) : List Nat × List Nat :=
+  let f0 : Finder Nat Nat := Finder.mk' (keyOf m) init
+  let (idx, f) := calls.foldl (fun (acc : List Nat × Finder Nat Nat) x =>
+    let r := acc.2.call (keyOf m) x
+    (acc.1 ++ [r.1], r.2)) ([], f0)
+  (idx, f.list)
+
+def foeRun (bounded : Bool) (m : Nat) (init : List Nat) (calls : List (List Nat)) : List Nat × List Nat :=
+  let f0 : EFinder Nat Nat := EFinder.mk' (keyOf m) init
+  let (idx, f) := calls.foldl (fun (acc : List Nat × EFinder Nat Nat) xs =>
+    let r := acc.2.call bounded (keyOf m) xs
+    (acc.1 ++ [r.1], r.2)) ([], f0)
+  (idx, f.list)
+
+def segWire (segs : List (PropCond × List Char)) : Option (List (PropCond × Fmt)) :=
+  segs.mapM (fun s => (wireOf s.2).map (fun f => (s.1, f)))
+
+def propFmt (segs : List (PropCond × List Char)) (name : List Char) : Option Fmt := do
+  let v ← Gen.Bspfmt.propVersions.find? (fun v => v.name == name)
+  let w ← segWire segs
+  propRecord v w
+
+def nameGuard (fn : String) : Option (Nat × Bool) :=
+  match Gen.Bspfmt.strSites.find? (fun s => s.1 == fn && (match wireOf s.2.1 with | some [FieldFmt.str _] => true | _ => false)) with
+  | some s => some (s.2.2.1, s.2.2.2.1)
+  | none => none
+
+def bytesList (j : Json) : Except String (List Bytes) := do
+  let a ← j.getArr?
+  a.toList.mapM bytesOf
+
+def handle (j : Json) : Except String Json := do
+  let op ← j.getObjValAs? String "op"
+  match op with
+  | "rle_enc" =>
+    let d ← bytesOf (← j.getObjVal? "d")
+    pure (Json.mkObj [("r", ofBytes (rleEncode d))])
+  | "rle_dec" =>
+    let d ← bytesOf (← j.getObjVal? "d")
+    let start ← j.getObjValAs? Nat "start"
+    let mx : Option Nat := match j.getObjVal? "max" with
+      | .ok (Json.num n) => some n.mantissa.toNat
+      | _ => none
+    match rleDecode d start mx with
+    | .ok r => pure (Json.mkObj [("r", ofBytes r)])
+    | .error _ => pure (errJson "truncated")
+  | "foi" =>
+    let m ← j.getObjValAs? Nat "mod"
+    let init ← Wire.natList (← j.getObjVal? "init")
+    let calls ← Wire.natList (← j.getObjVal? "calls")
+    let (idx, l) := foiRun m init calls
+    pure (Json.mkObj [("idx", Wire.ofNatList idx), ("list", Wire.ofNatList l)])
+  | "foe" =>
+    let m ← j.getObjValAs? Nat "mod"
+    let bounded : Bool := match j.getObjVal? "bounded" with
+      | .ok (Json.bool b) => b
+      | _ => Gen.Bspfmt.findOrExtendBounded
+    let init ← Wire.natList (← j.getObjVal? "init")
+    let callsJ ← (← j.getObjVal? "calls").getArr?
+    let calls ← callsJ.toList.mapM Wire.natList
+    let (idx, l) := foeRun bounded m init calls
+    pure (Json.mkObj [("idx", Wire.ofNatList idx), ("list", Wire.ofNatList l)])
+  | "pack" =>
+    let fs ← Wire.strOfCodes (← j.getObjVal? "fmt")
+    let vs ← valsOf (← j.getObjVal? "vals")
+    match wireOf fs with
+    | none => pure (errJson "format")
+    | some fmt =>
+      match pack fmt vs with
+      | .ok b => pure (Json.mkObj [("r", ofBytes b)])
+      | .error e => pure (errJson (structErr e))
+  | "unpack" =>
+    let fs ← Wire.strOfCodes (← j.getObjVal? "fmt")
+    let d ← bytesOf (← j.getObjVal? "d")
+    match wireOf fs with
+    | none => pure (errJson "format")
+    | some fmt =>
+      match unpack fmt d with
+      | .ok vs => pure (Json.mkObj [("vals", Json.arr (vs.map ofVal).toArray)])
+      | .error e => pure (errJson (structErr e))
+  | "recs" =>
+    let rec ← j.getObjValAs? String "rec"
+    let layout ← j.getObjValAs? String "layout"
+    let rowsJ ← (← j.getObjVal? "rows").getArr?
+    let rows ← rowsJ.toList.mapM valsOf
+    match (findPair rec layout).bind (fun p => wireCat p.writer) with
+    | none => pure (errJson "format")
+    | some fmt =>
+      match packMany fmt rows with
+      | .ok b => pure (Json.mkObj [("r", ofBytes b)])
+      | .error e => pure (errJson (structErr e))
+  | "recs_read" =>
+    let rec ← j.getObjValAs? String "rec"
+    let layout ← j.getObjValAs? String "layout"
+    let d ← bytesOf (← j.getObjVal? "d")
+    match (findPair rec layout).bind (fun p => wireCat p.reader) with
+    | none => pure (errJson "format")
+    | some fmt =>
+      match unpackMany fmt d with
+      | .ok rs => pure (Json.mkObj [("rows", Json.arr (rs.map (fun r => Json.arr (r.map ofVal).toArray)).toArray)])
+      | .error e => pure (errJson (structErr e))
+  | "tex" =>
+    let names ← bytesList (← j.getObjVal? "names")
+    match texWrite Gen.Bspfmt.textureWriteLimit names with
+    | .error e => pure (errJson (lumpErr e))
+    | .ok (data, offs) =>
+      match offsTable offs with
+      | .ok t => pure (Json.mkObj [("data", ofBytes data), ("table", ofBytes t)])
+      | .error e => pure (errJson (lumpErr e))
+  | "tex_read" =>
+    let data ← bytesOf (← j.getObjVal? "data")
+    let offs ← Wire.natList (← j.getObjVal? "offs")
+    match texRead Gen.Bspfmt.textureReadLimit data offs with
+    | .ok ns => pure (Json.mkObj [("names", Json.arr (ns.map ofBytes).toArray)])
+    | .error e => pure (errJson (lumpErr e))
+  | "vis" =>
+    let pvs ← bytesList (← j.getObjVal? "pvs")
+    let pas ← bytesList (← j.getObjVal? "pas")
+    match visWrite pvs pas with
+    | .ok b => pure (Json.mkObj [("r", ofBytes b)])
+    | .error e => pure (errJson (lumpErr e))
+  | "vis_read" =>
+    let d ← bytesOf (← j.getObjVal? "d")
+    match visRead d with
+    | .ok (p, a) => pure (Json.mkObj [("pvs", Json.arr (p.map ofBytes).toArray), ("pas", Json.arr (a.map ofBytes).toArray)])
+    | .error e => pure (errJson (lumpErr e))
+  | "name" =>
+    let fn ← j.getObjValAs? String "fn"
+    let name ← bytesOf (← j.getObjVal? "name")
+    match nameGuard fn with
+    | none => pure (errJson "format")
+    | some (n, g) =>
+      match nameWrite g n name with
+      | .ok b => pure (Json.mkObj [("r", ofBytes b), ("back", ofBytes (nameRead b))])
+      | .error e => pure (errJson (lumpErr e))
+  | "prop" =>
+    let ver ← Wire.strOfCodes (← j.getObjVal? "version")
+    let vs ← valsOf (← j.getObjVal? "vals")
+    match propFmt Gen.Bspfmt.propWriterSegs ver with
+    | none => pure (errJson "format")
+    | some fmt =>
+      match pack fmt vs with
+      | .ok b => pure (Json.mkObj [("r", ofBytes b), ("size", Json.num (JsonNumber.fromNat (size fmt)))])
+      | .error e => pure (errJson (structErr e))
+  | "prop_read" =>
+    let ver ← Wire.strOfCodes (← j.getObjVal? "version")
+    let d ← bytesOf (← j.getObjVal? "d")
+    match propFmt Gen.Bspfmt.propReaderSegs ver with
+    | none => pure (errJson "format")
+    | some fmt =>
+      match unpack fmt d with
+      | .ok vs => pure (Json.mkObj [("vals", Json.arr (vs.map ofVal).toArray)])
+      | .error e => pure (errJson (structErr e))
+  | "gen" =>
+    pure (Json.mkObj [
+      ("findOrExtendBounded", Json.bool Gen.Bspfmt.findOrExtendBounded),
+      ("textureWriteLimit", Json.num (JsonNumber.fromNat Gen.Bspfmt.textureWriteLimit)),
+      ("nameGuards", Json.arr (Gen.Bspfmt.strSites.map (fun s =>
+        Json.arr #[Json.str s.1, Json.num (JsonNumber.fromNat s.2.2.1), Json.bool s.2.2.2.1])).toArray),
+      ("propVersions", Json.arr (Gen.Bspfmt.propVersions.map (fun v =>
+        Json.arr #[Json.str (String.ofList v.name), Json.num (JsonNumber.fromNat v.version), Json.num (JsonNumber.fromNat v.size)])).toArray),
+      ("detailOrder", Json.arr (Gen.Bspfmt.detailIsinstanceOrder.map Json.str).toArray)])
+  | _ => throw s!"unknown op {op}"
+
+def main : IO Unit := Wire.main handle
